@@ -1,18 +1,20 @@
 //go:build verif
 
-package x25519
+package x25519_test
 
 // C06: X25519 equals RFC 7748 on every input of the declared alphabets, the flag
 // is false exactly when the output is all zero, KeyGen is the same function on
 // the base point, two parties agree. The curve-independent logic lives in
-// internal/verifc06; this file binds it to the real code and reports the field
-// back-end that was actually selected (c06Backend, build-tag dependent).
+// internal/verifc06; this file binds it to the real code through the exported API
+// only (external test package). The read-outs of package internals (dispatch
+// switch, tables) are separate in-package files that register themselves with
+// verifc06; when one of them does not build against a refactored tree only that
+// read-out is lost.
 
 import (
-	"crypto/sha256"
-	"encoding/hex"
 	"testing"
 
+	"github.com/cloudflare/circl/dh/x25519"
 	"github.com/cloudflare/circl/internal/verifc06"
 	"github.com/cloudflare/circl/internal/verifmc"
 )
@@ -22,55 +24,48 @@ func c06Impl() *verifc06.Impl {
 		Name: "x25519",
 		P:    verifc06.P25519,
 		Shared: func(k, u []byte) ([]byte, bool) {
-			var s, sk, pk Key
+			var s, sk, pk x25519.Key
 			copy(sk[:], k)
 			copy(pk[:], u)
-			ok := Shared(&s, &sk, &pk)
+			ok := x25519.Shared(&s, &sk, &pk)
 			copy(k, sk[:]) // lets the driver see a modified input
 			copy(u, pk[:])
 			return s[:], ok
 		},
 		KeyGen: func(k []byte) []byte {
-			var pk, sk Key
+			var pk, sk x25519.Key
 			copy(sk[:], k)
-			KeyGen(&pk, &sk)
+			x25519.KeyGen(&pk, &sk)
 			return pk[:]
 		},
 		SharedAlias: func(mode string, k, u []byte) ([]byte, bool, []byte, []byte) {
-			var out, sk, pk Key
+			var out, sk, pk x25519.Key
 			copy(sk[:], k)
 			copy(pk[:], u)
 			switch mode {
 			case "out=u":
-				ok := Shared(&pk, &sk, &pk)
+				ok := x25519.Shared(&pk, &sk, &pk)
 				return pk[:], ok, sk[:], nil
 			case "out=k":
-				ok := Shared(&sk, &sk, &pk)
+				ok := x25519.Shared(&sk, &sk, &pk)
 				return sk[:], ok, nil, pk[:]
 			case "k=u": // one object is both secret and peer value
-				ok := Shared(&out, &sk, &sk)
+				ok := x25519.Shared(&out, &sk, &sk)
 				return out[:], ok, sk[:], nil
 			case "out=k=u":
-				ok := Shared(&sk, &sk, &sk)
+				ok := x25519.Shared(&sk, &sk, &sk)
 				return sk[:], ok, nil, nil
 			}
 			panic("harness: unknown aliasing mode " + mode)
 		},
 		KeyGenAlias: func(k []byte) []byte {
-			var x Key
+			var x x25519.Key
 			copy(x[:], k)
-			KeyGen(&x, &x)
+			x25519.KeyGen(&x, &x)
 			return x[:]
 		},
-		Backend: c06Backend(),
-		Globals: func() string {
-			h := sha256.New()
-			h.Write(tableGenerator[:])
-			for i := range lowOrderPoints {
-				h.Write(lowOrderPoints[i][:])
-			}
-			return hex.EncodeToString(h.Sum(nil)[:8])
-		},
+		Backend: verifc06.ObservedBackend("x25519"), // "" when the in-package read-out is not linked in
+		Globals: verifc06.TablesDigest("x25519"),
 	}
 }
 
